@@ -46,8 +46,9 @@
   Attribute values: `Element.setAttrNS` passes every value through its converter (C15).  The model stores the
   values it is given; the harness applies the real converter to the recorded events before it sends them.
 
-  `__fixXmlPart` (as of fix 4cb8050): `fixXmlPart` — regex search for the document element's name, the text up to the
-  next `>` as "root tag", a white-space tolerant test per prefix on it, splice right after the element name.
+  `__fixXmlPart` (as of fixes 4cb8050, 692b8c3, e859a9c): `fixXmlPart` — the prolog (`prologLen`: Python's backtracking
+  match of the prolog regex, modelled for every text), the document element's name exactly behind it, the text up to the
+  next `>` outside quotes as "root tag", a white-space tolerant test per prefix on it, splice right after the element name.
 -/
 import OdfModel.Xml.Tree
 namespace OdfModel.LoadSax
@@ -549,21 +550,114 @@ def isPySpace (c : Cp) : Bool :=
 /-- `[^\s/>]` -/
 def isRootNameCh (c : Cp) : Bool := !(isPySpace c || c == 47 || c == 62)
 
-/-- `re.search(u'<(?![?!])[^\s/>]+', x)`: the END of the first match (`root.end()`), scanning `x` from offset `i` -/
-def findRootEnd : Str → Nat → Option Nat
-  | [], _ => none
-  | c :: r, i =>
-    if c == 60 then
-      match r with
-      | d :: _ =>
-        if d != 63 && d != 33 && isRootNameCh d then some (i + 1 + (r.takeWhile isRootNameCh).length)
-        else findRootEnd r (i + 1)
-      | [] => none
-    else findRootEnd r (i + 1)
-
 /-- the text of a quoted run after its opening quote `q`: (inside, rest after the closing quote) -/
 def splitAtQuote (q : Cp) (r : Str) : Option (Str × Str) :=
   if r.contains q then some (r.takeWhile (· != q), (r.dropWhile (· != q)).drop 1) else none
+
+/-! #### the prolog (fix e859a9c)
+
+  `re.match(u'\ufeff?(?:\s|<\?(?:[^?]|\?(?!>))*\?>|<!--(?:[^-]|-(?!->))*-->|<!DOCTYPE(?:"[^"]*"|'[^']*'|\[(?:<!--(?:[^-]|-(?!->))*-->|<\?(?:[^?]|\?(?!>))*\?>|"[^"]*"|'[^']*'|[^\]"'<]|<(?!!--|\?))*\]|[^\[>"'])*>)*', x)`
+  for EVERY text (well-formed prolog or not).  Every alternative of every group starts differently and has one way to
+  match, so Python's backtracking matcher finds what a deterministic scanner finds:
+  * nothing follows the outer `(...)*`, so it never fails: "take items while one matches" (`prologRest`);
+  * `<\?(?:[^?]|\?(?!>))*\?>` runs from `<?` to the FIRST `?>` behind it, `<!--(?:[^-]|-(?!->))*-->` from `<!--` to the first
+    `-->` (`afterFirst`); without one the alternative fails and no other starts with these characters: the prolog ends
+    in front of them;
+  * inside `<!DOCTYPE … >` (`dtTop`) and inside its `[ … ]` (`dtSubset`) quoted literals, and in the subset comments and
+    processing instructions, are units; in the subset `<!--` / `<?` can ONLY be a comment / processing instruction
+    (`[^\]"'<]|<(?!!--|\?)`), an unterminated one — like an unterminated literal, subset or declaration — makes the DOCTYPE
+    alternative fail (`none`) and the prolog end in front of `<!DOCTYPE`.  (d63f155 had `<!--.*?-->|…|[^\]"']` there: two ways
+    to read `<!--`, exponential backtracking on an unterminated subset.)
+  Fuel: every call consumes at least one character, `length + 1` is enough. -/
+
+/-- the text behind the first occurrence of `pat` -/
+def afterFirst (pat : Str) : Str → Option Str
+  | [] => if pat.isEmpty then some [] else none
+  | c :: s => if isPrefixOf pat (c :: s) then some ((c :: s).drop pat.length) else afterFirst pat s
+
+/-- `?>` -/
+def sPiEnd : Str := [63, 62]
+/-- `!--` (behind `<`) -/
+def sBangDashes : Str := [33, 45, 45]
+/-- `-->` -/
+def sCommentEnd : Str := [45, 45, 62]
+/-- `!DOCTYPE` (behind `<`) -/
+def sBangDoctype : Str := [33, 68, 79, 67, 84, 89, 80, 69]
+
+mutual
+/-- behind `<!DOCTYPE`, outside `[ ]`: `"[^"]*"` | `'[^']*'` | `\[ … \]` | `[^\[>"']`, then `>` -/
+def dtTop : Nat → Str → Option Str
+  | 0, _ => none
+  | _+1, [] => none
+  | f+1, c :: r =>
+    if c == 62 then some r
+    else if c == 34 || c == 39 then
+      match splitAtQuote c r with
+      | some (_, rest) => dtTop f rest
+      | none => none
+    else if c == 91 then dtSubset f r
+    else dtTop f r
+/-- inside `[ ]`: comment | processing instruction | `"[^"]*"` | `'[^']*'` | `[^\]"'<]` | `<(?!!--|\?)`, then `\]` -/
+def dtSubset : Nat → Str → Option Str
+  | 0, _ => none
+  | _+1, [] => none
+  | f+1, c :: r =>
+    if c == 93 then dtTop f r
+    else if c == 34 || c == 39 then
+      match splitAtQuote c r with
+      | some (_, rest) => dtSubset f rest
+      | none => none
+    else if c == 60 && isPrefixOf sBangDashes r then
+      match afterFirst sCommentEnd (r.drop 3) with
+      | some rest => dtSubset f rest
+      | none => none
+    else if c == 60 && r.head? == some 63 then
+      match afterFirst sPiEnd (r.drop 1) with
+      | some rest => dtSubset f rest
+      | none => none
+    else dtSubset f r
+end
+
+/-- the items of the prolog: what is left of the text when no alternative matches any more -/
+def prologRest : Nat → Str → Str
+  | 0, s => s
+  | _+1, [] => []
+  | f+1, c :: r =>
+    if isPySpace c then prologRest f r
+    else if c == 60 then
+      if r.head? == some 63 then
+        match afterFirst sPiEnd (r.drop 1) with
+        | some rest => prologRest f rest
+        | none => c :: r
+      else if isPrefixOf sBangDashes r then
+        match afterFirst sCommentEnd (r.drop 3) with
+        | some rest => prologRest f rest
+        | none => c :: r
+      else if isPrefixOf sBangDoctype r then
+        match dtTop (r.length + 1) (r.drop 8) with
+        | some rest => prologRest f rest
+        | none => c :: r
+      else c :: r
+    else c :: r
+
+/-- `\ufeff?` -/
+def dropBom : Str → Str
+  | 0xFEFF :: r => r
+  | s => s
+
+/-- `prolog.end()` -/
+def prologLen (x : Str) : Nat := x.length - (prologRest (x.length + 1) (dropBom x)).length
+
+/-- `re.compile(u'<(?![?!])[^\s/>]+').match(x, k)`: the END of the match (`root.end()`) -/
+def rootEndAt (x : Str) (k : Nat) : Option Nat :=
+  match x.drop k with
+  | 60 :: d :: r =>
+    if d != 63 && d != 33 && isRootNameCh d then some (k + 1 + ((d :: r).takeWhile isRootNameCh).length) else none
+  | _ => none
+
+/-- the end of the document element's name: looked for exactly behind the prolog (fix e859a9c; before, the first
+    `<name` anywhere in the text was taken — inside a comment, a processing instruction or an entity literal too) -/
+def findRootEnd (x : Str) : Option Nat := rootEndAt x (prologLen x)
 
 /-- `re.match(u'(?:[^>"\']|"[^"]*"|\'[^\']*\')*', t).group(0)` (fix 692b8c3): the text up to the first `>` that is not
     inside a quoted attribute value; an opening quote without its closing quote ends the match -/
@@ -597,7 +691,7 @@ def fixStep (tag : Str) (e : Nat) (result : Str) (p : Str) : Str :=
   if declares p tag then result else result.take e ++ toInsert p ++ result.drop e
 
 def fixXmlPart (x : Str) : Str :=
-  match findRootEnd x 0 with
+  match findRootEnd x with
   | none => x
   | some e => requested.foldl (fixStep (rootTagText x e) e) x
 
